@@ -860,14 +860,21 @@ def c05q(prog, rep, R="C05.q"):
     # a `&self` question all of whose DIRECT callers are reviewed readers is a piece of that reviewed code moved into a helper (the transitive form
     # of this acceptance is useless here: every parser function is called, some levels down, from parse_structures)
     part_of = {}
+
+    def is_question(n):
+        xb = prog.body(n)
+        return xb is not None and xb.arg_count >= 1 and xb.locals[1]["ty"].startswith("&") and not xb.locals[1]["ty"].startswith("&mut")   # `&self`: asks, does not parse
+
+    def only_from_reviewed(n, depth=0):
+        """every direct caller of n is a reviewed reader, or a `&self` question that is itself called only from such (a chain of small
+        accessors: `get_last_context -> contexts_innermost_first`)"""
+        callers = {c.body.npath.split("::{closure")[0] for c in prog.who_calls(n) if c.body.crate.startswith("pasfmt")} - {n}
+        return bool(callers) and all(c in reviewed or (depth < 3 and is_question(c) and only_from_reviewed(c, depth + 1)) for c in callers)
     for x in rd:
         if x in reviewed:
             continue
-        callers = {c.body.npath.split("::{closure")[0] for c in prog.who_calls(x) if c.body.crate.startswith("pasfmt")}
-        xb = prog.body(x)
-        question = xb is not None and xb.arg_count >= 1 and xb.locals[1]["ty"].startswith("&") and not xb.locals[1]["ty"].startswith("&mut")   # `&self`: asks, does not parse
-        if any(x.startswith(r + "::") for r in reviewed) or (question and callers and callers <= set(reviewed)):
-            part_of[x] = sorted(short(c) for c in callers)
+        if any(x.startswith(r + "::") for r in reviewed) or (is_question(x) and only_from_reviewed(x)):
+            part_of[x] = sorted(short(c.body.npath) for c in prog.who_calls(x) if c.body.crate.startswith("pasfmt"))
     layout.inventory(rep, R, "functions that scan the stack of parser contexts", [x for x in rd if x not in part_of], reviewed,
                      "whether an enclosing statement has ended is the `is_ended` mark of its context; a scan for one enclosing kind misses the other kinds with the same shape (case / try-except both have an `else` section after `;`)",
                      helpers=False)
